@@ -71,6 +71,8 @@ pub struct Ctx {
     poison_seed: u64,
     poison_n: u64,
     pub poison_mode: u8,
+    /// CPU feature mask of the simulated machine the current call runs on (F11)
+    pub cpu_mask: u32,
 }
 
 #[macro_export]
@@ -95,6 +97,7 @@ impl Ctx {
             poison_seed: 0,
             poison_n: 0,
             poison_mode: 0,
+            cpu_mask: u32::MAX,
         }
     }
 
@@ -180,8 +183,10 @@ impl Ctx {
     pub fn guarded<R>(&mut self, poison: bool, f: impl FnOnce() -> R) -> Result<R, String> {
         let seed = if poison { self.next_poison() } else { 0 };
         reed_solomon_simd::verif::set_poison(seed);
+        reed_solomon_simd::verif::set_cpu_mask(self.cpu_mask);
         let res = catch_unwind(AssertUnwindSafe(f));
         reed_solomon_simd::verif::set_poison(0);
+        reed_solomon_simd::verif::set_cpu_mask(u32::MAX);
         match res {
             Ok(v) => Ok(v),
             Err(_) => Err(take_panic_message()),
@@ -191,6 +196,7 @@ impl Ctx {
     /// Runs harness-side reference work (shadows, oracles): poison off, panics caught.
     pub fn shadow<R>(&mut self, f: impl FnOnce() -> R) -> Result<R, String> {
         reed_solomon_simd::verif::set_poison(0);
+        reed_solomon_simd::verif::set_cpu_mask(u32::MAX);
         match catch_unwind(AssertUnwindSafe(f)) {
             Ok(v) => Ok(v),
             Err(_) => Err(take_panic_message()),
@@ -215,6 +221,8 @@ thread_local! {
     static PANIC_MSG: RefCell<String> = const { RefCell::new(String::new()) };
 }
 
+pub static LAST_PANIC: std::sync::Mutex<String> = std::sync::Mutex::new(String::new());
+
 pub fn install_panic_hook() {
     std::panic::set_hook(Box::new(|info| {
         let msg = if let Some(s) = info.payload().downcast_ref::<&str>() {
@@ -229,6 +237,9 @@ pub fn install_panic_hook() {
             .map(|l| format!("{}:{}", l.file(), l.line()))
             .unwrap_or_default();
         PANIC_MSG.with(|m| *m.borrow_mut() = format!("{msg} @ {loc}"));
+        if let Ok(mut g) = LAST_PANIC.lock() {
+            *g = format!("{msg} @ {loc}");
+        }
     }));
 }
 
